@@ -4,6 +4,7 @@ import (
 	"fmt"
 	"go/ast"
 	"go/token"
+	"go/types"
 	"regexp"
 	"sort"
 	"strconv"
@@ -615,31 +616,68 @@ func c18r7(p *Prog, r *Reporter) {
 			if !ok || f != "filter" {
 				continue
 			}
-			mi, ok := st.Val.(*ssa.MakeInterface)
-			if !ok {
-				continue
-			}
-			fa, ok := mi.X.(*ssa.FieldAddr)
-			if !ok {
-				continue // publishing a value (the include mask), not the address of a sub-filter
-			}
-			sub := fieldName(fa.X.Type(), fa.Field)
-			mf := &MustFlow{Fn: fn, InstrGen: func(i ssa.Instruction) bool {
-				s2, ok := i.(*ssa.Store)
-				if !ok {
-					return false
+			// sub-filters whose address is published: directly, or through a helper method that returns it
+			subs := map[string]types.Type{}
+			addSub := func(v ssa.Value) {
+				if mi, ok := v.(*ssa.MakeInterface); ok {
+					if fa, ok := mi.X.(*ssa.FieldAddr); ok {
+						subs[fieldName(fa.X.Type(), fa.Field)] = deref(fa.Type())
+					}
 				}
-				_, f2, _, ok := loadedField(s2.Addr)
-				return ok && f2 == sub
-			}}
-			mf.Run()
-			if mf.Before(st) {
-				r.OK(name, "publishes &"+sub, p.Pos(st.Pos()), "the sub-filter is assigned on every path before its address becomes the compiled filter")
-			} else {
-				r.Bad(name, "publishes &"+sub, p.Pos(st.Pos()), "the compiled filter is set to &"+sub+" although "+sub+" is not rebuilt on every path: a re-compiled filter keeps a stale sub-filter")
+			}
+			addSub(st.Val)
+			if c := callOf(st.Val); c != nil {
+				if sc := c.Common().StaticCallee(); sc != nil && typeName(recvType(sc)) == "compiledQuery" {
+					for _, hb := range sc.Blocks {
+						if ret, ok := hb.Instrs[len(hb.Instrs)-1].(*ssa.Return); ok && len(ret.Results) == 1 {
+							addSub(ret.Results[0])
+						}
+					}
+				}
+			}
+			var names []string
+			for sub := range subs {
+				names = append(names, sub)
+			}
+			sort.Strings(names)
+			for _, sub := range names {
+				rebuilt := func(match func(addr ssa.Value) bool) bool {
+					mf := &MustFlow{Fn: fn, InstrGen: func(i ssa.Instruction) bool {
+						s2, ok := i.(*ssa.Store)
+						return ok && match(s2.Addr)
+					}}
+					mf.Run()
+					return mf.Before(st)
+				}
+				whole := rebuilt(func(addr ssa.Value) bool {
+					_, f2, _, ok := loadedField(addr)
+					return ok && f2 == sub
+				})
+				fieldwise := false
+				if stt, ok := subs[sub].Underlying().(*types.Struct); ok && !whole && stt.NumFields() > 0 {
+					fieldwise = true
+					for k := 0; k < stt.NumFields(); k++ {
+						suffix := "." + sub + "." + stt.Field(k).Name()
+						if !rebuilt(func(addr ssa.Value) bool { return strings.HasSuffix(apath(addr), suffix) }) {
+							fieldwise = false
+						}
+					}
+				}
+				if whole || fieldwise {
+					r.OK(name, "publishes &"+sub, p.Pos(st.Pos()), "the sub-filter is assigned (as a whole, or every field of it) on every path before its address becomes the compiled filter")
+				} else {
+					r.Bad(name, "publishes &"+sub, p.Pos(st.Pos()), "the compiled filter is set to &"+sub+" although "+sub+" is not rebuilt on every path: a re-compiled filter keeps a stale sub-filter")
+				}
 			}
 		}
 	}
+}
+
+func deref(t types.Type) types.Type {
+	if pt, ok := t.Underlying().(*types.Pointer); ok {
+		return pt.Elem()
+	}
+	return t
 }
 
 // ---------- R8 ----------
@@ -785,8 +823,37 @@ func c18r10(p *Prog, r *Reporter) {
 			if sc := c.Common().StaticCallee(); sc != nil && sc.Name() == "Unregister" && typeName(recvType(sc)) == "Cache" {
 				return "U", c.Common().Args[1]
 			}
+			if sc := c.Common().StaticCallee(); sc != nil && typeName(recvType(sc)) == "compiledQuery" && sc.Blocks != nil {
+				return "H", v
+			}
 		}
 		return "?", v
+	}
+	// helperKinds: for a compiledQuery method returning a filter: the kinds it may return; for kind B (include mask only)
+	// the bool parameter that is known true at that return ("" if none).
+	type hret struct {
+		kind  string
+		param string
+	}
+	helperKinds := func(h *ssa.Function) []hret {
+		var out []hret
+		for _, hb := range h.Blocks {
+			ret, ok := hb.Instrs[len(hb.Instrs)-1].(*ssa.Return)
+			if !ok || len(ret.Results) != 1 {
+				continue
+			}
+			k, _ := classify(ret.Results[0])
+			hr := hret{kind: k}
+			if k == "B" {
+				for _, pr := range h.Params {
+					if bt, ok := pr.Type().Underlying().(*types.Basic); ok && bt.Kind() == types.Bool && factBefore(h, ret, pr.Name()+"=true") {
+						hr.param = pr.Name()
+					}
+				}
+			}
+			out = append(out, hr)
+		}
+		return out
 	}
 	n := map[string]int{}
 	for _, s := range sites {
@@ -794,7 +861,7 @@ func c18r10(p *Prog, r *Reporter) {
 		name := p.FuncName(fn)
 		kind, inner := classify(st.Val)
 		n[name+kind]++
-		construct := fmt.Sprintf("filter store (%s) #%d", map[string]string{"A": "mask filter", "B": "include mask only", "C": "relation filter", "D": "cached filter", "U": "unregistered filter", "?": "other"}[kind], n[name+kind])
+		construct := fmt.Sprintf("filter store (%s) #%d", map[string]string{"A": "mask filter", "B": "include mask only", "C": "relation filter", "D": "cached filter", "U": "unregistered filter", "H": "via helper", "?": "other"}[kind], n[name+kind])
 		pos := p.Pos(st.Pos())
 		noExcl := func(at ssa.Instruction) string {
 			if !factBefore(fn, at, "exclusive=false") {
@@ -890,6 +957,40 @@ func c18r10(p *Prog, r *Reporter) {
 				}
 			}
 			r.Check(oku, name, construct, pos, "the filter restored is what Cache.Unregister returns for the current (cached) filter: the original filter with all its clauses")
+		case "H":
+			call := callOf(inner)
+			h := call.Common().StaticCallee()
+			var bad []string
+			for _, hr := range helperKinds(h) {
+				switch hr.kind {
+				case "A":
+				case "B":
+					if hr.param == "" {
+						bad = append(bad, h.Name()+" returns the include mask alone on a path not guarded by a bool parameter")
+						continue
+					}
+					var arg ssa.Value
+					for pi, pr := range h.Params {
+						if pr.Name() == hr.param {
+							arg = call.Common().Args[pi]
+						}
+					}
+					f := boolFacts(arg, true, 0)
+					if !(f["exclusive=false"] && f["lenzero(exclude)"]) {
+						bad = append(bad, "the argument for "+h.Name()+"'s parameter "+hr.param+" does not imply that exclusive is false and exclude is empty")
+					}
+				default:
+					bad = append(bad, h.Name()+" may return a filter of kind "+hr.kind)
+				}
+			}
+			switch {
+			case underTarget || fn.Name() != "Compile":
+				r.Bad(name, construct, pos, "a plain filter from "+h.Name()+" is stored where a target is given / outside Compile: clauses are lost")
+			case len(bad) > 0:
+				r.Bad(name, construct, pos, strings.Join(bad, "; "))
+			default:
+				r.OK(name, construct, pos, h.Name()+" returns the full mask filter, or the include mask alone only under a flag that the caller passes as `!exclusive && len(exclude) == 0`")
+			}
 		default:
 			r.Bad(name, construct, pos, "the value stored as the filter ("+apath(inner)+") is none of: mask filter, include mask, relation filter, cached filter, Cache.Unregister result")
 		}
